@@ -83,11 +83,11 @@ PROPS = {
         "assumptions": ["VRF outputs are an environment table produced by the implementation's primitive"],
     },
     "C04": {
-        "coq_deps": ["DirFacts"],
+        "coq_deps": ["DirFacts", "DirRefine", "InsertRefine", "AuditRebuild", "AuditSound", "AuditComplete", "AuditDir"],
         "steps": [{"sub": "dirs", "quick": [0], "thorough": [1]}],
         "rule": "random publish histories on the real Directory (both configurations; cached/uncached; sequential/parallel insertion; labels incl. empty, 1-byte, prefix-related and 330-byte; values incl. empty and 1500-byte; inserts, updates, re-submissions, no-op and duplicate-label batches): after every publish the full database (every node record, the epoch record, every value state) and the returned epoch hash are recomputed by the extracted model; the root hash is recomputed from the history alone by the canonical-trie specification (specroot); every lookup, key-history (Complete, MostRecent 1/n/n+3/random) and audit proof is compared structurally with the model's and its verification verdict and result with the model verifier's; ground truth from an independent version table",
-        "partial": "theorems: range validation, one single-epoch proof per epoch, list-length checks; that the walk over the latest tree verifies for every range is decided by correspondence + oracle (all pairs after every queried epoch)",
-        "assumptions": [],
+        "partial": None,
+        "assumptions": ["VRF outputs are well-formed canonical 256-bit labels and do not collide (C18), as for C01", "the model = code tie: every audit proof and verdict of the harness run is recomputed by the extracted model"],
     },
     "C09": {
         "coq_deps": ["VerifyFacts", "HashingBinding", "InsertRefine", "AuditRebuild", "AuditSound"],
